@@ -25,12 +25,15 @@
 (* agree (Mirror), at every depth, under renaming.                         *)
 (*                                                                         *)
 (* Bug = TRUE switches SetNested to what the pinned tree does (the new     *)
-(* dressed child inherits the SOURCE's dressed children); it is only used  *)
-(* to show that the invariants are not vacuous.                            *)
+(* dressed child inherits the SOURCE's dressed children) and, for a part   *)
+(* with several reference fields, to a dressing that keeps the source's    *)
+(* sharing (references that designated one object in the source share the  *)
+(* FIRST duplicate); it is only used to show that the invariants are not   *)
+(* vacuous.                                                                *)
 (***************************************************************************)
 EXTENDS Integers, Sequences, FiniteSets, TLC
 
-CONSTANTS Scens,      \* which initial populations (subset of 1..8), one initial state each
+CONSTANTS Scens,      \* which initial populations (subset of 1..9), one initial state each
           MaxDepth,   \* histories of at most this many operations
           MaxH,       \* at most this many handles (bounds Copy)
           Vals,       \* tokens written by SetLeaf
@@ -49,21 +52,28 @@ CT == [ Leaf    |-> << F("a","a","leaf",""), F("s","s","leaf",""), F("arr","arr"
         Outer   |-> << F("mid","mid","nest","Mid"), F("z","z","leaf","") >>,
         Holder  |-> << F("r","r","ref","Leaf"), F("h","h","leaf","") >>,
         Renamed |-> << F("_x","x","leaf",""), F("_in","inn","nest","Leaf"), F("y","y","leaf","") >>,
-        Wrap    |-> << F("hold","hold","nest","Holder"), F("w","w","leaf","") >> ]        \* a nested part that itself holds a reference
+        Wrap    |-> << F("hold","hold","nest","Holder"), F("w","w","leaf","") >>,         \* a nested part that itself holds a reference
+        Pair    |-> << F("r1","r1","ref","Leaf"), F("_r2","r2","ref","Leaf"), F("p","p","leaf","") >>,   \* two references (the second renamed)
+        WrapPair |-> << F("hold","hold","nest","Pair"), F("w","w","leaf","") >> ]         \* a nested part that holds two references
 (* constant lookup tables (TLC evaluates them once) *)
 FL == [c \in DOMAIN CT |-> {CT[c][i] : i \in 1..Len(CT[c])}]
 FP == [c \in DOMAIN CT |-> [py \in {f.py : f \in FL[c]} |-> CHOOSE f \in FL[c] : f.py = py]]
 FN == [c \in DOMAIN CT |-> [n \in {f.n : f \in FL[c]} |-> CHOOSE f \in FL[c] : f.n = n]]
 (* xo-paths of the reference fields of a struct of class c, its nested parts included (not through references) *)
-RECURSIVE RefPaths(_)
-RefPaths(c) == UNION {IF f.k = "ref" THEN {<<f.n>>} ELSE IF f.k = "nest" THEN {<<f.n>> \o p : p \in RefPaths(f.c)} ELSE {} : f \in FL[c]}
-RP == [c \in DOMAIN CT |-> RefPaths(c)]
-ASSUME \A c \in DOMAIN CT : Cardinality(RP[c]) <= 1          \* Copy / SetNested duplicate at most one referent per object
+(* in declaration order (the order fixes nothing but the numbering of the duplicates Copy / SetNested allocate) *)
+RECURSIVE RefPathSeq(_, _)
+RefPathSeq(c, i) ==
+  IF i > Len(CT[c]) THEN <<>>
+  ELSE LET f == CT[c][i]
+           sub == IF f.k = "nest" THEN RefPathSeq(f.c, 1) ELSE <<>> IN
+       (IF f.k = "ref" THEN << <<f.n>> >> ELSE [j \in 1..Len(sub) |-> <<f.n>> \o sub[j]]) \o RefPathSeq(c, i + 1)
+RPS == [c \in DOMAIN CT |-> RefPathSeq(c, 1)]
+RP == [c \in DOMAIN CT |-> {RPS[c][j] : j \in 1..Len(RPS[c])}]
+ASSUME \A c \in DOMAIN CT : Cardinality(RP[c]) = Len(RPS[c])
 HR == [c \in DOMAIN CT |-> RP[c] # {}]
 Flds(c) == FL[c]
 ByPy(c, py) == FP[c][py]
 HasRefField(c) == HR[c]
-RPath(c) == CHOOSE p \in RP[c] : TRUE                          \* only used when HasRefField(c)
 
 NullLoc == <<>>
 Child(loc, n) == <<loc[1], Append(loc[2], n)>>
@@ -73,6 +83,19 @@ Walk(v, p) == IF p = <<>> THEN v ELSE Walk(v[Head(p)], Tail(p))
 Put(v, p, x) == IF p = <<>> THEN x ELSE [v EXCEPT ![Head(p)] = Put(@, Tail(p), x)]
 ValAt(hp, loc) == Walk(hp[loc[1]].val, loc[2])
 BufOf(hp, loc) == hp[loc[1]].buf
+A(c, b, v) == [cls |-> c, buf |-> b, val |-> v]
+
+(* A value tree v (reference paths ps) that is being stored in buffer b: a reference keeps its referent inside b; a referent *)
+(* that lives in another buffer is DUPLICATED into b, once PER REFERENCE PATH: references that designated one and the same   *)
+(* object in the source designate two distinct duplicates in the stored value (as implemented: Ref._to_buffer, one field at a *)
+(* time; DESIGN 1.5 "Copy").  Gives the extended heap and the value tree to store.                                            *)
+RECURSIVE DupRefs(_, _, _, _)
+DupRefs(hp, v, ps, b) ==
+  IF ps = <<>> THEN [hp |-> hp, v |-> v]
+  ELSE LET t == Walk(v, Head(ps)) IN
+       IF t # NullLoc /\ BufOf(hp, t) # b
+       THEN DupRefs(Append(hp, A("Leaf", b, ValAt(hp, t))), Put(v, Head(ps), <<Len(hp) + 1, <<>>>>), Tail(ps), b)
+       ELSE DupRefs(hp, v, Tail(ps), b)
 
 (* the dressing a constructor / copy / move / (correct) nested assignment builds for a struct of class c at loc *)
 RECURSIVE FreshKids(_, _, _)
@@ -128,7 +151,7 @@ OuterV(t) == [mid |-> MidV(t), z |-> t + 5]
 HolderV(t) == [r |-> NullLoc, h |-> t + 1]
 RenV(t) == [_x |-> t + 4, _in |-> LeafV(t), y |-> t + 5]
 HolderR(t, tgt) == [r |-> <<tgt, <<>>>>, h |-> t + 1]
-A(c, b, v) == [cls |-> c, buf |-> b, val |-> v]
+PairV(t, t1, t2) == [r1 |-> IF t1 = 0 THEN NullLoc ELSE <<t1, <<>>>>, _r2 |-> IF t2 = 0 THEN NullLoc ELSE <<t2, <<>>>>, p |-> t + 1]
 InitHeap(Scen) ==
   CASE Scen = 1 -> << A("Outer", 1, OuterV(10)), A("Mid", 2, MidV(20)) >>                              \* three levels, source in another buffer
     [] Scen = 2 -> << A("Holder", 1, HolderV(10)), A("Leaf", 1, LeafV(20)), A("Leaf", 2, LeafV(30)) >>  \* references within / across buffers
@@ -140,6 +163,9 @@ InitHeap(Scen) ==
     [] Scen = 8 -> << A("Leaf", 1, LeafV(10)), A("Holder", 1, HolderR(20, 1)),                          \* a nested part that holds a reference:
                       A("Wrap", 1, [hold |-> HolderR(20, 1), w |-> 35]),                               \* wrap built with hold = m0 (r = t0), buffer 1;
                       A("Leaf", 2, LeafV(40)), A("Holder", 2, HolderR(50, 4)) >>                        \* t1 and m1 (r = t1) in buffer 2
+    [] Scen = 9 -> << A("Leaf", 1, LeafV(10)), A("Leaf", 1, LeafV(20)),                                 \* two references per object: t0, t1,
+                      A("Pair", 1, PairV(30, 1, 1)), A("Pair", 1, PairV(40, 1, 2)),                    \* ps (both references on t0), pd (t0 and t1), buffer 1;
+                      A("WrapPair", 2, [hold |-> PairV(50, 0, 0), w |-> 65]) >>                        \* a WrapPair in buffer 2 (its part starts with null references)
 (* as implemented: an object that is the target of a reference stays where it is *)
 IsTarget(hp, i) == \E j \in 1..Len(hp) : \E p \in RP[hp[j].cls] : ValAt(hp, <<j, p>>) = <<i, <<>>>>
 Init ==
@@ -157,6 +183,16 @@ SetLeaf(e, f, v) ==
   /\ LET L == Node(hs, e).loc IN heap' = [heap EXCEPT ![L[1]].val = Put(@, Append(L[2], f.n), v)]
   /\ UNCHANGED hs /\ Tick
 
+(* Bug only: the dressing of a stored part with several reference fields that keeps the SOURCE's sharing - a reference whose *)
+(* source value v[n] equals that of an earlier reference field gets the dressed object of that earlier field                 *)
+DirectRefs(c) == {f \in FL[c] : f.k = "ref"}
+MemoKids(hp, c, dst, v) ==
+  LET fresh == FreshKids(hp, c, dst)
+      idx(n) == CHOOSE i \in 1..Len(CT[c]) : CT[c][i].n = n
+      same(i, n) == CT[c][i].k = "ref" /\ v[CT[c][i].n] = v[n]
+      first(n) == CT[c][CHOOSE j \in 1..idx(n) : same(j, n) /\ \A k \in 1..(j - 1) : ~same(k, n)].n
+  IN [n \in DOMAIN fresh |-> IF FN[c][n].k = "ref" /\ v[n] # NullLoc THEN fresh[first(n)] ELSE fresh[n]]
+
 (* h.p1...pn.f = src    f a nested hybrid field: stores an independent COPY of src *)
 SetNested(e, f, src) ==
   /\ Valid(hs, e) /\ ~ERef(hs, e) /\ f \in Flds(ECls(hs, e)) /\ f.k = "nest"
@@ -165,15 +201,14 @@ SetNested(e, f, src) ==
          M == Node(hs, src)
          dst == Child(N.loc, f.n)
          v == ValAt(heap, M.loc)
-         \* the copy's reference: same buffer -> the same referent (shared); other buffer -> a DUPLICATE of the referent in
-         \* the destination's buffer (as Copy does), never an object of the other buffer
-         dup == HasRefField(f.c) /\ Walk(v, RPath(f.c)) # NullLoc /\ BufOf(heap, Walk(v, RPath(f.c))) # BufOf(heap, dst)
+         \* the copy's references: same buffer -> the same referent (shared); other buffer -> a DUPLICATE of the referent in
+         \* the destination's buffer (as Copy does, one per reference), never an object of the other buffer
+         D == DupRefs(heap, v, RPS[f.c], BufOf(heap, dst))
          hp == IF dst = M.loc THEN heap                       \* same memory: nothing to copy
-               ELSE IF dup THEN [Append(heap, A("Leaf", BufOf(heap, dst), ValAt(heap, Walk(v, RPath(f.c)))))
-                                   EXCEPT ![dst[1]].val = Put(@, dst[2], Put(v, RPath(f.c), <<Len(heap) + 1, <<>>>>))]
-               ELSE [heap EXCEPT ![dst[1]].val = Put(@, dst[2], v)]
+               ELSE [D.hp EXCEPT ![dst[1]].val = Put(@, dst[2], D.v)]
          new == [loc |-> dst, mv |-> FALSE,
-                 kids |-> IF Bug THEN M.kids ELSE FreshKids(hp, f.c, dst)]
+                 kids |-> IF ~Bug THEN FreshKids(hp, f.c, dst)
+                          ELSE IF Cardinality(DirectRefs(f.c)) > 1 THEN MemoKids(hp, f.c, dst, v) ELSE M.kids]
      IN /\ heap' = hp
         /\ hs' = [hs EXCEPT ![e[1]].node = SetKid(@, Append(XoPath(hs[e[1]].cls, e[2]), f.n), new)]
   /\ Tick
@@ -208,23 +243,21 @@ ClearRef(e, f) ==
   /\ Tick
 
 (* n = src.copy(_buffer = b): an independent equal object; a reference keeps its target inside the same buffer and *)
-(* gets a duplicate of the target in another buffer (DESIGN 1.5 "Copy")                                            *)
+(* gets a duplicate of the target in another buffer, one per reference (DESIGN 1.5 "Copy")                         *)
 Copy(src, b) ==
   /\ Valid(hs, src) /\ ~ERef(hs, src) /\ Len(hs) < MaxH
   /\ LET M == Node(hs, src)
          c == ECls(hs, src)
          v == ValAt(heap, M.loc)
-         rp == RPath(c)                                     \* the reference field may sit in a nested part (Wrap: hold.r)
-         dup == HasRefField(c) /\ Walk(v, rp) # NullLoc /\ BufOf(heap, Walk(v, rp)) # b
-         hp == IF dup THEN heap \o << A("Leaf", b, ValAt(heap, Walk(v, rp))), A(c, b, Put(v, rp, <<Len(heap) + 1, <<>>>>)) >>
-               ELSE Append(heap, A(c, b, v))
+         D == DupRefs(heap, v, RPS[c], b)                   \* the reference fields may sit in a nested part (Wrap: hold.r)
+         hp == Append(D.hp, A(c, b, D.v))
      IN /\ heap' = hp
         /\ hs' = Append(hs, [cls |-> c, node |-> FreshNode(hp, c, <<Len(hp), <<>>>>, TRUE)])
   /\ Tick
 
 (* src.move(_buffer = b) *)
 MoveArgs(e) == Valid(hs, e) /\ ~ERef(hs, e)
-HoldsRef(e) == HasRefField(ECls(hs, e)) /\ Walk(ValAt(heap, Node(hs, e).loc), RPath(ECls(hs, e))) # NullLoc   \* at any depth
+HoldsRef(e) == \E p \in RP[ECls(hs, e)] : Walk(ValAt(heap, Node(hs, e).loc), p) # NullLoc   \* at any depth
 MustRefuse(e) == e[2] # <<>> \/ HoldsRef(e)                        \* nested in another, or contains references
 MayRefuse(e) == MustRefuse(e) \/ ~Node(hs, e).mv \/ HasRefField(ECls(hs, e))   \* left open by the property: reference targets, null references
 MoveDo(e, b) ==
